@@ -718,6 +718,13 @@ class ActionKinds:
             if isinstance(s, ast.Assign):
                 v = self.ev(s.value, st, prod, pvar, sink)
                 for t in s.targets:
+                    if isinstance(t, (ast.Tuple, ast.List)) and isinstance(s.value, (ast.Tuple, ast.List)) and len(t.elts) == len(s.value.elts) \
+                            and not any(isinstance(x, ast.Starred) for x in list(t.elts) + list(s.value.elts)):
+                        # a, b = x, y: element-wise (the kinds of the elements are not mixed)
+                        vals = [self.ev(x, st, prod, pvar, None) for x in s.value.elts]
+                        for tt, vv in zip(t.elts, vals):
+                            self.assign(tt, vv, st, prod, pvar, sink)
+                        continue
                     self.assign(t, v, st, prod, pvar, sink)
                     if isinstance(t, ast.Name):
                         cs = dict(st.get('#const', {}))
